@@ -122,10 +122,12 @@ def rel_state(la, lb, sidx, sym_is_end, alloc_b, stats, timeout_ms=30000, idxmap
             if not terminal:
                 if z3.is_bv_value(sa_):
                     want = sa_.as_long() if idxmap is None else idxmap.get(sa_.as_long())
+                    if sa_.as_long() == len(la.comp.post.states):
+                        want = len(lb.comp.post.states)   # the index one past the last state: where end() leaves a parser without a fail state after FAIL
                     conds.append((f'control state (A {sa_.as_long()} ~ B {want})', (sb_ == want) if want is not None else z3.BoolVal(False)))
                 else:
                     exp = z3.BitVecVal(0, sb_.size())
-                    for ka, kb in (idxmap or {i: i for i in range(len(la.comp.post.states))}).items():
+                    for ka, kb in list((idxmap or {i: i for i in range(len(la.comp.post.states))}).items()) + [(len(la.comp.post.states), len(lb.comp.post.states))]:
                         exp = z3.If(sa_ == ka, z3.BitVecVal(kb, sb_.size()), exp)
                     conds.append(('control state', sb_ == exp))
             if la.indirect and lb.indirect and not sym_is_end:
